@@ -74,6 +74,24 @@ func runC12(r *rt.Runner) {
 			if kind == kType1 {
 				check("seekable source", nil, false, true)
 				check("seekable one-byte-reads", []int{1}, false, true)
+				// a seekable source that is not positioned at its start
+				for _, prefix := range [][]byte{[]byte("%!PS junk prefix\n"), it.data, {0x80, 0x01, 0x05}} {
+					sr := &mon.SeekPlanReader{PlanReader: mon.PlanReader{Data: append(append([]byte(nil), prefix...), it.data...)}}
+					sr.StartAt(len(prefix))
+					if rng.IntN(2) == 0 {
+						sr.Chunks = randChunks(rng)
+					}
+					d, err := runEntry(env, kind, sr)
+					got := outcome{digest: d}
+					if err != nil {
+						got.err = err.Error()
+					}
+					c.Eval()
+					c.Count("plan kind: seekable-after-prefix")
+					if got != refOut {
+						c.Violation("delivery|type1|seekable-after-prefix", fmt.Sprintf("type1.Read from a seekable source positioned at offset %d (after a prefix) differs from reading the font alone:\n  got:       digest %s err %q\n  reference: digest %s err %q", len(prefix), got.digest, got.err, refOut.digest, refOut.err), "")
+					}
+				}
 			}
 			// two-chunk splits
 			n := len(it.data)
